@@ -560,6 +560,10 @@ func (h *c03Hist) runConn(s *vfStation, id int, spec c03hConnSpec, v6ok bool, wg
 	}
 	out.RemoteIP = rip.String()
 	if rip != nil {
+		if spec.Peer == "" && v6 {
+			// the unmodified ::1 peer: one address for all such connections of all histories, so one fixed entry
+			spec.GeoErr = ""
+		}
 		c03GeoDB.set(rip, c03GeoEntry{CC: spec.CC, ASN: spec.ASN, CCErr: spec.GeoErr == "cc", ASNErr: spec.GeoErr == "asn"})
 	}
 	out.Tracked = s.rm.CountRegistrations(phantom)
@@ -745,7 +749,7 @@ func TestVerifC03Hist(t *testing.T) {
 	s.rm.GeoIP = c03GeoDB
 	v6ok := false
 	if ln, err := net.Listen("tcp6", "[::1]:0"); err == nil {
-		v6ok = true
+		v6ok = os.Getenv("VERIF_C03_NO_V6") != "1" // (the variable forces the fallback for a sandbox without ::1)
 		ln.Close()
 	}
 	out := c03hOut{V6OK: v6ok, TS: s.wrappingNames(), Results: make([]*c03hRes, len(cases))}
